@@ -2,6 +2,7 @@
 
 from __future__ import annotations
 
+import collections
 import copy
 import random
 from typing import Any, Iterator
@@ -57,6 +58,8 @@ class C17(Prop):
         elif r < 0.1:
             a = b = None
         case = {"kind": "merge", "a": None if a is None else to_cfg(a), "b": None if b is None else to_cfg(b)}
+        if index % 7 in (0, 1):
+            case["sub"] = ("overrides", "original")[index % 7]
         if share and a is not None and b is not None:
             case["share"] = True
         if a is not None and b is not None and rng.random() < 0.15:
@@ -76,6 +79,10 @@ class C17(Prop):
         b = None if case["b"] is None else from_cfg(case["b"])
         if case.get("share"):
             a, b = _alias(a), _alias(b)     # equal mappings inside one argument become one object
+        if case.get("sub") == "overrides":
+            b = _subclassed(b)              # mappings of a dict subclass (what some loaders return), on one side only
+        elif case.get("sub") == "original":
+            a = _subclassed(a)
         a0, b0 = copy.deepcopy(a), copy.deepcopy(b)
         try:
             res = merge_config(a, b)
@@ -207,6 +214,18 @@ def _alias(x: Any, seen: list[Any] | None = None) -> Any:
                 seen.append(v)
                 _alias(v, seen)
     return x
+
+
+def _subclassed(x: Any, depth: int = 0) -> Any:
+    """The same value with every mapping an instance of a dict subclass (OrderedDict / a subclass of our own)."""
+    if not isinstance(x, dict):
+        return x
+    cls = collections.OrderedDict if depth % 2 == 0 else _MyDict
+    return cls((k, _subclassed(v, depth + 1)) for k, v in x.items())
+
+
+class _MyDict(dict):  # type: ignore[type-arg]
+    pass
 
 
 def _same_types(x: Any, y: Any) -> bool:
